@@ -36,13 +36,23 @@ NEEDS = {
  "C17b": "a lookup that fails by timing out (ZooKeeper or meta accept the request but never answer)",
  "C18b": "outstanding count 1 -> 0 -> 1 with the new send's inFlightUp between the reader's unlock and its deadline clear; then the server goes silent",
  "C10c": "a Delete with a whole-family entry visited before a family with qualifiers (the type byte is computed once and never reset)",
+ "C01c": "a namespaced table ns:q cached and a default-namespace table of the same length whose name differs only at the separator position (ns_q, nsxq), looked up while it has no cached region",
+ "C04c": "two regions behind one connection; the connection is reset after one region's probe succeeded and another request runs clientDown before the establisher publishes the client",
+ "C07c": "a call ends a round with a retryable outcome, no non-retryable error so far, and the batch context ends during the back-off between rounds",
+ "C08c": "two goroutines putting different overlapping regions, both newer than the same cached region, the second overlap scan running before the first writer inserts",
+ "C09c": "an outage whose meta lookup returns a differently named region (split) and whose first attempt at the replacement fails, so that the establisher loops once more",
+ "C15c": "the real snappy codec, an incompressible payload of >=256 bytes, no spare capacity in the pooled output buffer, a size just below an allocator size class",
+ "C16c": "a start key that begins with ',' compared with a start key beginning with a byte below ','",
+ "C19c": "Close while a sender is between its done check and its write: the call registers and writes after Close took the snapshot of outstanding calls and before the socket is shut",
+ "C20c": "a healthy connection serving exactly one region which is replaced (split/merge/re-lookup) by a region on the same server that does not host hbase:meta",
  "C18": "an unbatched request whose context is cancelled before the (late) response arrives, then an idle period longer than the read timeout",
 }
 CHECKS = {  # seed -> checks to try (own property first)
  "C01": ["C01"], "C02": ["C02"], "C03": ["C03"], "C04": ["C04", "C09"], "C05": ["C05", "C12"], "C06": ["C06"], "C07": ["C07"],
  "C08": ["C08"], "C09": ["C09", "C04"], "C10": ["C10", "C05"], "C11": ["C11", "C15"], "C12": ["C12", "C07"], "C13": ["C13"],
  "C14": ["C14"], "C15": ["C15", "C05"], "C19": ["C19", "C20"], "C20": ["C20", "C19"], "C02b": ["C02"], "C03b": ["C03"], "C09b": ["C09"], "C05b": ["C05"], "C06b": ["C06"], "C11b": ["C11"], "C12b": ["C12", "C02"], "C13b": ["C13"], "C14b": ["C14"], "C17b": ["C17", "C13"], "C18b": ["C18"], "C16": ["C16", "C01"], "C17": ["C17"], "C18": ["C18"],
- "C10c": ["C10"],
+ "C10c": ["C10"], "C01c": ["C01"], "C04c": ["C04", "C09"], "C07c": ["C07"], "C08c": ["C08"], "C09c": ["C09"], "C15c": ["C15"],
+ "C16c": ["C16"], "C19c": ["C19", "C03"], "C20c": ["C20", "C19"],
 }
 names = sys.argv[1:] or sorted(os.listdir('/verif/seeded'))
 rows = []
